@@ -11,7 +11,7 @@ from walker import Walk
 from p11client import Died, Hang
 
 NTOK = 2
-def symbols(bound):
+def symbols(bound, NTOK=2):
     classes = [(ti, rw) for ti in range(NTOK) for rw in (False, True)]
     S = [('open', ti, rw) for ti, rw in classes] + [('close', c) for c in classes] + [('closeall', ti) for ti in range(NTOK)]
     S += [('login', c, ut, right) for c in classes for ut in (0, 1, 2) for right in (True, False)]
@@ -19,7 +19,7 @@ def symbols(bound):
     S += [('initpin', c) for c in classes] + [('setpin', c, right) for c in classes for right in (True, False)] + [('info', c) for c in classes]
     return S
 
-def abs_next(st, sym, bound):
+def abs_next(st, sym, bound, NTOK=2):
     """second, purely abstract encoding of the rules of the statement: returns the next abstract state or None if the symbol is not applicable"""
     toks, sess = st; toks = list(toks); sess = list(sess); k = sym[0]
     def norm(): return (tuple(toks), tuple(sorted(sess)))
@@ -54,13 +54,13 @@ def abs_next(st, sym, bound):
         if right and not cur_exists: return None
     return norm()
 
-def enumerate_graph(bound):
-    init = (tuple((None, True) for _ in range(NTOK)), ()); S = symbols(bound)
+def enumerate_graph(bound, NTOK=2):
+    init = (tuple((None, True) for _ in range(NTOK)), ()); S = symbols(bound, NTOK)
     graph = {}; dq = collections.deque([init]); graph[init] = {}
     while dq:
         st = dq.popleft()
         for sym in S:
-            nx = abs_next(st, sym, bound)
+            nx = abs_next(st, sym, bound, NTOK)
             if nx is None: continue
             graph[st][sym] = nx
             if nx not in graph: graph[nx] = {}; dq.append(nx)
@@ -85,10 +85,10 @@ def tour(job):
     """cover the edges assigned to this worker (edge index % nworkers == wid) with one continuous walk"""
     from ck import CK
     import shutil
-    part = Part(); bound = job['bound']; init, graph = enumerate_graph(bound)
+    part = Part(); bound = job['bound']; NTOK = job.get('ntok', 2); init, graph = enumerate_graph(bound, NTOK)
     edges = sorted(((st, sym) for st in graph for sym in graph[st]), key=repr)
     mine = set(e for i, e in enumerate(edges) if i % job['nw'] == job['wid'])
-    ck = CK(job['hdr']); d = os.path.join(job['scratch'], 'tour%d' % job['wid']); os.makedirs(d, exist_ok=True)
+    ck = CK(job['hdr']); d = os.path.join(job['scratch'], 'tour%d-%d' % (NTOK, job['wid'])); os.makedirs(d, exist_ok=True)
     w = None; done = 0; steps = 0
     try:
         w = Walk(job['paths'], ck, job['seed'], d, backend=job['backend'], cfg='asan', new_exec=make_new_exec(job['paths'], ck), ntok=NTOK, max_sessions=bound)
@@ -115,7 +115,7 @@ def tour(job):
             if w.findings: break
             if got != nxt:
                 part.inconc(f'two encodings of the model disagree at {cur} --{sym}--> model {got} vs abstract {nxt}'); break
-            if (cur, sym) in mine: mine.discard((cur, sym)); done += 1; part.distinct.add((cur, sym))
+            if (cur, sym) in mine: mine.discard((cur, sym)); done += 1; part.distinct.add((NTOK, cur, sym))
             cur = nxt
     except Died as e:
         part.observe('side:C17 library terminated the host', {'kind': e.kind(), 'fn': e.fn, 'where': e.where()}); part.inconc(f'executor died ({e.kind()} in {e.fn}) in edge tour')
@@ -134,13 +134,16 @@ def tour(job):
 
 W = {'open': 6, 'close': 3, 'closeall': 1, 'login': 6, 'logout': 3, 'inittoken': 1, 'initpin': 2, 'setpin': 2, 'create': 1, 'find': 1, 'restart': 1}
 def run(ctx):
-    ctx.need('asan'); bound = ctx.q(3, 4)
+    ctx.need('asan'); bound = ctx.q(4, 5)
     init, graph = enumerate_graph(bound); nedges = sum(len(v) for v in graph.values())
     nw = min(ctx.nproc, 16)
     jobs = [dict(paths=ctx.paths, hdr=ctx.paths['asan']['hdr'], seed=ctx.seed * 7919 + i, bound=bound, nw=nw, wid=i, scratch=ctx.scratch, backend='file' if (ctx.quick or i % 2 == 0) else 'db') for i in range(nw)]
+    if not ctx.quick:       # thorough: a second graph with three tokens and up to three sessions
+        init3, graph3 = enumerate_graph(3, 3); nedges += sum(len(v) for v in graph3.values()); ctx.extra['states_3_tokens'] = len(graph3)
+        jobs += [dict(paths=ctx.paths, hdr=ctx.paths['asan']['hdr'], seed=ctx.seed * 7919 + 100 + i, bound=3, ntok=3, nw=nw, wid=i, scratch=ctx.scratch, backend='file' if i % 2 == 0 else 'db') for i in range(nw)]
     for part in pmap(tour, jobs, nw): ctx.merge(part)
     left = ctx.extra.get('edges_left', 0)
-    ctx.extra.update(states=len(graph), transitions=nedges, traces_validated_against_impl=ctx.extra.get('edges_executed', 0), exhaustive=(left == 0 and not ctx.inconclusive),
+    ctx.extra.update(states=len(graph) + ctx.extra.get('states_3_tokens', 0), transitions=nedges, traces_validated_against_impl=ctx.extra.get('edges_executed', 0), exhaustive=(left == 0 and not ctx.inconclusive),
                      bound=f'<= {bound} sessions, {NTOK} tokens', checker_cmd='./check C03 --tier ' + ctx.tier)
     if left: ctx.inconc(f'{left} edges of the abstract graph were not executed')
     # random walks beyond the bound (up to 5 sessions, object operations and restarts mixed in)
